@@ -4,6 +4,7 @@ import Parsley.Model.Filters
 import Parsley.Spec.Filters
 import Parsley.Spec.DeflateFixed
 import Parsley.Spec.DeflateDyn
+import Parsley.Spec.ZlibHdr
 import Parsley.Spec.Predictor
 import Parsley.Model.Loader
 /-!
@@ -32,6 +33,16 @@ import Parsley.Model.Loader
            longest possible (15- and 7-bit) / irregular codes, HLIT / HDIST / HCLEN minimal or maximal,
            alphabets with every symbol coded, single-code and empty distance alphabets, run-length
            spellings literal / irregular / longest runs - block types in five patterns, empty blocks)
+           ZLIB HEADER (RFC 1950 2.2; Spec/ZlibHdr.lean): the mode of an F or P layer is <encoder 0..4> + 8 * h.  h = 0: the
+           header `78 01`; h = 1..32: header number h - 1 of `ZlibHdr.headers` (CINFO = (h-1) / 4 = log2(window) - 8 in
+           0..7, FLEVEL = (h-1) % 4, FDICT clear, the FCHECK that makes the pair a multiple of 31), the encoder's
+           candidate distances restricted to the declared window `2 ^ (CINFO + 8)`; h = 33..64: header number h - 33
+           with the candidate distances NOT restricted - where a distance beyond the declared window is used the stream
+           is outside RFC 1950 (payload or TransformError, never another value), which the judge decides from the
+           tokens (`ZlibHdr.maxDist`).  Corruption `F.6.<arg>` REPLACES the two header bytes by CMF = arg / 256,
+           FLG = arg % 256: a legal pair (`ZlibHdr.legal`: CM = 8, CINFO <= 7, FDICT clear, multiple of 31) whose window
+           covers the distances used changes nothing; any other pair (CINFO 8..15, CM != 8, FDICT set, wrong FCHECK) must
+           be a TransformError.
   Only <dictser> and <contenthex> reach the implementation and the model.  The judge rebuilds
   dictionary and content from the recipe with the *spec-side* encoders, checks that they are
   what the case carries, and derives the expected outcome from the recipe alone.
@@ -342,11 +353,24 @@ def Layer.pre (l : Layer) (x : Bytes) : Bytes :=
 /-- the Flate layer a P layer compresses with -/
 def Layer.flate (l : Layer) : Layer := if l.kind == 'P' then { l with kind := 'F' } else l
 
+/-! ### the zlib header of a Flate layer (spec side: Spec/ZlibHdr.lean) -/
+
+/-- the encoder of an F / P layer: mode % 8 -/
+def Layer.fmode (l : Layer) : Nat := l.a % 8
+/-- the header selector of an F / P layer: mode / 8 -/
+def Layer.hsel (l : Layer) : Nat := l.a / 8
+/-- the two header bytes the layer's encoder writes -/
+def Layer.hdr (l : Layer) : Bytes :=
+  if l.hsel == 0 then [0x78, 0x01] else ZlibHdr.headerNo ((l.hsel - 1) % 32)
+/-- the window the header declares -/
+def Layer.window (l : Layer) : Nat := ZlibHdr.window (l.hdr.head?.getD 0x78)
+/-- the largest candidate distance the layer's factoriser may use: the declared window, or (h = 33..64) any -/
+def Layer.maxCand (l : Layer) : Nat := if l.hsel ≥ 33 then 32768 else l.window
+
 /-- the fixed-Huffman factorisation a seed stands for: greedy matches over a list of candidate
     distances (all distance symbols with and without extra bits are reachable), capped match length,
     either spelling of length 258, literals forced at some positions, `k` tokens per block -/
-def lzToks (seed : Nat) (x : Bytes) : List DeflateFixed.Tok :=
-  let caps : Array Nat := #[258, 3, 4, 10, 11, 12, 257, 258]
+def lzCands (seed : Nat) : List Nat :=
   let pool : List Nat :=
     [6, 8, 9, 12, 13, 16, 17, 24, 25, 32, 33, 49, 64, 65, 96, 97, 100, 128, 129, 192, 193, 255,
      256, 257, 258, 384, 385, 512, 513, 768, 769, 1000, 1024, 1025, 1536, 1537, 2048, 2049, 3072, 3073, 4096, 4097,
@@ -354,22 +378,28 @@ def lzToks (seed : Nat) (x : Bytes) : List DeflateFixed.Tok :=
   -- the periods of the generated payloads always, a rotating quarter of the pool besides
   let cands : List Nat := [1, 2, 3, 4, 5, 7, 48, 300, 5000, 24577, 32768] ++
     ((pool.zip (List.range pool.length)).filter fun (_, i) => (i + seed) % 4 == 0).map (·.1)
-  let cands := if seed % 4 == 3 then cands.reverse else cands
+  if seed % 4 == 3 then cands.reverse else cands
+
+def lzToks (seed : Nat) (x : Bytes) (maxCand : Nat := 32768) : List DeflateFixed.Tok :=
+  let caps : Array Nat := #[258, 3, 4, 10, 11, 12, 257, 258]
+  let cands := lzCands seed
+  -- a header that declares a smaller window: only distances inside it
+  let cands := if maxCand ≥ 32768 then cands else cands.filter (· ≤ maxCand)
   DeflateFixed.factorise cands (caps[seed % 8]?.getD 258) (seed % 2 == 1)
     (fun i => seed % 3 == 0 && (i * 7 + seed) % 5 == 0) x
 
-def fixedBlocks (seed : Nat) (x : Bytes) : List (List DeflateFixed.Tok) :=
+def fixedBlocks (seed : Nat) (x : Bytes) (maxCand : Nat := 32768) : List (List DeflateFixed.Tok) :=
   let ks : Array Nat := #[1, 2, 3, 7, 50, 1000, 100000]
-  DeflateFixed.chunk (ks[seed % 7]?.getD 50) (lzToks seed x)
+  DeflateFixed.chunk (ks[seed % 7]?.getD 50) (lzToks seed x maxCand)
 
 /-- the plan of blocks of all three types a seed stands for (F mode 4): the factorisation of `lzToks`, cut into at
     most 40 blocks; the type of block `i` by one of five patterns (all dynamic; dynamic / fixed; stored / dynamic /
     fixed; all dynamic with a different header style per block; stored / dynamic / dynamic / fixed), a stored block
     carrying the bytes its tokens stand for; one seed in six closes the stream with an EMPTY final block of one
     of the three types (a dynamic block with only the end-of-block symbol: a single code of length 1) -/
-def dynPlan (seed : Nat) (x : Bytes) : List DeflateDyn.Block × DeflateDyn.Block :=
+def dynPlan (seed : Nat) (x : Bytes) (maxCand : Nat := 32768) : List DeflateDyn.Block × DeflateDyn.Block :=
   let style := (seed * 37 + seed / 7) % 108
-  let toks := lzToks seed x
+  let toks := lzToks seed x maxCand
   let ks : Array Nat := #[1, 2, 3, 7, 50, 1000, 100000]
   let k := max (ks[seed % 7]?.getD 50) (toks.length / 40 + 1)
   let chunks := DeflateFixed.chunk k toks
@@ -397,14 +427,14 @@ def Layer.encodeBase (l : Layer) (x : Bytes) : Bytes :=
     let useZ : Nat → Bool := match l.b with | 0 => fun _ => false | 1 => fun _ => true | _ => fun i => i % 2 == 0
     sprinkle l.a (FiltersSpec.encodeA85 useZ x)
   | 'F' =>
-    if l.a == 1 then FiltersSpec.zlibFixedLiterals x
-    else if l.a == 2 then DeflateFixed.zlibFixed (fixedBlocks l.b x) x
-    else if l.a == 3 then
-      let bs := fixedBlocks l.b x
-      DeflateFixed.zlibFixedF bs.dropLast (bs.getLast?.getD []) x
-    else if l.a == 4 then
-      let (bs, last) := dynPlan l.b x
-      DeflateDyn.zlibBlocks bs last x
+    if l.fmode == 1 then ZlibHdr.zlibFixedLiteralsH l.hdr x
+    else if l.fmode == 2 then ZlibHdr.zlibFixedH l.hdr (fixedBlocks l.b x l.maxCand) x
+    else if l.fmode == 3 then
+      let bs := fixedBlocks l.b x l.maxCand
+      ZlibHdr.zlibFixedFH l.hdr bs.dropLast (bs.getLast?.getD []) x
+    else if l.fmode == 4 then
+      let (bs, last) := dynPlan l.b x l.maxCand
+      ZlibHdr.zlibBlocksH l.hdr bs last x
     else
       let sizes : List Nat :=
         if l.b == 0 then [] else
@@ -413,7 +443,7 @@ def Layer.encodeBase (l : Layer) (x : Bytes) : Bytes :=
           | 0 => []
           | n + 1 => let (v, r) := r.nat (if l.b % 2 == 0 then 70000 else 300); v :: mk n r
         mk (l.b % 7) (Rng.mk' l.b)
-      FiltersSpec.zlibStored (FiltersSpec.partition (x.length + 1) sizes x)
+      ZlibHdr.zlibStoredH l.hdr (FiltersSpec.partition (x.length + 1) sizes x)
   | _ => x
 
 /-- spec-side encoding of one layer: predictor (P layers), then the layer's own encoder -/
@@ -474,6 +504,7 @@ def corrupt (l : Layer) (op arg : Nat) (x : Bytes) : Bytes :=
   | 'F', 3 => match x with | a :: b :: t => a :: (b ^^^ 0x04) :: t | _ => x      -- header check fails
   | 'F', 4 => match x with | a :: b :: c :: d :: t => a :: b :: c :: (d ^^^ 0x01) :: t | _ => x   -- stored LEN ≠ ~NLEN / Huffman garbage
   | 'F', 5 => match x with | _ :: b :: t => 0x79 :: b :: t | _ => x              -- compression method ≠ 8 (and check)
+  | 'F', 6 => [UInt8.ofNat (arg / 256), UInt8.ofNat arg] ++ x.drop 2               -- the two header bytes replaced: CMF = arg / 256, FLG = arg % 256
   | _, _ => x
 
 def eolBytes (e : Nat) : Bytes := match e with | 1 => [0x0A] | 2 => [0x0D, 0x0A] | 3 => [0x0D] | _ => []
@@ -501,37 +532,39 @@ def Recipe.parse (s : String) : Option Recipe :=
 /-- the content (layers applied innermost first; the corruption hits the output of its layer), and
     whether every fixed-Huffman layer of the recipe is written from a VALID factorisation of its
     input (the hypothesis of `inflate_fixed_roundtrip_final`), checked with the specification's
-    `resolveBlocksA` (= `resolveBlocks`, theorem `resolveBlocksA_eq`) -/
-def Recipe.build (r : Recipe) : Bytes × Bool × List Obj :=
-  let rec go (ls : List Layer) (idx : Nat) : Bytes × Bool × List Obj :=
+    `resolveBlocksA` (= `resolveBlocks`, theorem `resolveBlocksA_eq`); the /DecodeParms entries; and per layer
+    the largest LZ77 distance its tokens use (`ZlibHdr.maxDist`; 0 for the layers without distances) -/
+def Recipe.build (r : Recipe) : Bytes × Bool × List Obj × List Nat :=
+  let rec go (ls : List Layer) (idx : Nat) : Bytes × Bool × List Obj × List Nat :=
     match ls with
-    | [] => (r.payload, true, [])
+    | [] => (r.payload, true, [], [])
     | l0 :: rest =>
-      let (inner0, ok, ps) := go rest (idx + 1)
+      let (inner0, ok, ps, ds) := go rest (idx + 1)
       -- a P layer: its /DecodeParms entry is fitted to the input, the input goes through the forward filter
       let parm := l0.parms inner0.length
       let inner := l0.pre inner0
       let l := l0.flate
-      if l.kind == 'F' && (l.a == 2 || l.a == 3) then
-        let bs := fixedBlocks l.b inner
+      if l.kind == 'F' && (l.fmode == 2 || l.fmode == 3) then
+        let bs := fixedBlocks l.b inner l.maxCand
         let ok := ok && ((DeflateFixed.resolveBlocksA bs #[]).map Array.toList == some inner)
-        let e := if l.a == 2 then DeflateFixed.zlibFixed bs inner
-                 else DeflateFixed.zlibFixedF bs.dropLast (bs.getLast?.getD []) inner
-        (if idx == r.corrL then corrupt l r.corrOp r.corrArg e else e, ok, parm :: ps)
-      else if l.kind == 'F' && l.a == 4 then
+        let e := if l.fmode == 2 then ZlibHdr.zlibFixedH l.hdr bs inner
+                 else ZlibHdr.zlibFixedFH l.hdr bs.dropLast (bs.getLast?.getD []) inner
+        (if idx == r.corrL then corrupt l r.corrOp r.corrArg e else e, ok, parm :: ps, ZlibHdr.maxDist bs.flatten :: ds)
+      else if l.kind == 'F' && l.fmode == 4 then
         -- the hypothesis of `inflate_dynamic_roundtrip`, evaluated (planOkB_sound)
-        let (bs, last) := dynPlan l.b inner
+        let (bs, last) := dynPlan l.b inner l.maxCand
         let ok := ok && DeflateDyn.planOkB bs last inner
-        let e := DeflateDyn.zlibBlocks bs last inner
-        (if idx == r.corrL then corrupt l r.corrOp r.corrArg e else e, ok, parm :: ps)
+        let e := ZlibHdr.zlibBlocksH l.hdr bs last inner
+        (if idx == r.corrL then corrupt l r.corrOp r.corrArg e else e, ok, parm :: ps,
+         ZlibHdr.maxDist ((bs ++ [last]).flatMap DeflateDyn.Block.toks) :: ds)
       else
         let e := l.encodeBase inner
-        (if idx == r.corrL then corrupt l r.corrOp r.corrArg e else e, ok, parm :: ps)
-  let (c, ok, ps) := go r.chain 1
-  (c ++ (if r.chain.isEmpty then [] else eolBytes r.eol), ok, ps)
+        (if idx == r.corrL then corrupt l r.corrOp r.corrArg e else e, ok, parm :: ps, 0 :: ds)
+  let (c, ok, ps, ds) := go r.chain 1
+  (c ++ (if r.chain.isEmpty then [] else eolBytes r.eol), ok, ps, ds)
 
 def Recipe.content (r : Recipe) : Bytes := r.build.1
-def Recipe.parms (r : Recipe) : List Obj := r.build.2.2
+def Recipe.parms (r : Recipe) : List Obj := r.build.2.2.1
 
 /-- a `z` insertion (corruption 6 on an ASCII85 layer): groups complete and digits of the open group at the
     insertion point, number of `z`s, and whether the layer is the innermost one -/
@@ -603,17 +636,36 @@ def Recipe.supported (r : Recipe) : Bool :=
   let s := r.shape / 3
   !(r.chain.any (·.kind == 'P')) || r.parmsReach || (5 ≤ s && s ≤ 10)
 
-def Recipe.expect (r : Recipe) (parms : List Obj) : Expect :=
+/-- a header replacement (corruption 6 on a Flate layer): the two bytes now in front of the layer's stream -/
+def Recipe.hdrSwap (r : Recipe) : Option (UInt8 × UInt8) :=
+  if r.corrL == 0 || r.corrOp != 6 then none else
+  match r.chain[r.corrL - 1]? with
+  | some l => if l.kind == 'F' || l.kind == 'P' then some (UInt8.ofNat (r.corrArg / 256), UInt8.ofNat r.corrArg) else none
+  | none => none
+
+/-- RFC 1950: does every Flate layer keep its distances (`dists`, from `Recipe.build`) inside the window its header
+    declares?  (The header of the layer hit by corruption 6 is the replacement.) -/
+def Recipe.inWindow (r : Recipe) (dists : List Nat) : Bool :=
+  ((r.chain.zip dists).zip (List.range r.chain.length)).all fun ((l, d), i) =>
+    if l.kind != 'F' && l.kind != 'P' then true else
+    let w := match r.hdrSwap with
+      | some (cmf, _) => if i + 1 == r.corrL then ZlibHdr.window cmf else l.window
+      | none => l.window
+    d ≤ w
+
+def Recipe.expect (r : Recipe) (parms : List Obj) (dists : List Nat := []) : Expect :=
   if !r.supported then .unsupported else
   let s := r.shape / 3
   let unknown := r.chain.any (·.kind == 'U')
   let single := r.chain.length == 1
+  -- a replaced header that is one of the 32 legal ones is no corruption
+  let legalSwap := match r.hdrSwap with | some (cmf, flg) => ZlibHdr.legal cmf flg | none => false
   if s == 5 && single then .errGuard
   else if s == 5 || s == 6 || s == 8 || s == 10 then .errGuard
   else if s == 7 then (if r.chain.isEmpty then .okPayload else .errGuard)
   else if s == 9 then (if r.chain.isEmpty then .errGuard else .errGuard)
   else if s == 11 then .okOrGuard
-  else if r.corrL != 0 then
+  else if r.corrL != 0 && !legalSwap then
     -- a corrupt layer is reached only if no unknown filter precedes it
     if (r.chain.take (r.corrL - 1)).any (·.kind == 'U') then .errGuard
     else match r.zcase with
@@ -628,10 +680,12 @@ def Recipe.expect (r : Recipe) (parms : List Obj) : Expect :=
   -- shapes that hand every filter its own parameter entry: an entry that is not an integer has no
   -- meaning in the standard (the decoder may take a default or refuse; never a wrong value, never a panic)
   else if r.parmsReach && parms.any nonIntParms then .okOrTransform
+  -- a distance beyond the window the header declares: outside RFC 1950 (zlib's inflate takes it unless built strict)
+  else if !r.inWindow dists then .okOrTransform
   else .okPayload
 
 def caseOf (kind : String) (r : Recipe) : String :=
-  let (c, _, ps) := r.build
+  let (c, _, ps, _) := r.build
   s!"{kind} {r.mta} {showDict (r.dictL ps c.length)} {hexOfBytes c}"
 
 /-! ### the oracle -/
@@ -667,13 +721,13 @@ def judgePlain (case impl : String) : String :=
       | none => "bad-case"
       | some r =>
         -- the case must carry exactly what the recipe denotes
-        let (content, factOk, parms) := r.build
+        let (content, factOk, parms, dists) := r.build
         let extras := r.extrasL content.length
         if showDict (r.dictL parms content.length) != ds || hexOfBytes content != hex then "bad-case recipe and data differ" else
         if !factOk then "bad-case invalid factorisation" else
         let want := r.wanted
         let okLine := s!"ok {hexOfBytes want} {showDict (extras.foldl (fun d (k, v) => insertKey k v d) [])}"
-        match r.expect parms with
+        match r.expect parms dists with
         | .unsupported => "bad-case predictor layer in a shape without its parameters / aligned z above another layer"
         | .okOrTransform =>
           if impl == okLine || impl == "err transform" then "ok" else s!"bad value expected payload or err transform, got {impl.take 60}"
@@ -837,7 +891,7 @@ def cutWindows (emit : String → IO Unit) (full : Bool) : IO Unit := do
   let mut k := 0
   for r in recipes do
     for style in List.range viewStyles do
-      let (c, _, ps) := r.build
+      let (c, _, ps, _) := r.build
       let d := r.dictL ps c.length
       let text := renderHead style d ++ c ++ renderTail style
       for cut in List.range text.length do
@@ -865,7 +919,8 @@ def randLayer (r : Rng) (allowU : Bool) : Layer × Rng :=
   let (m, r) := r.nat 5
   if k < 3 then (⟨'H', a, b, c, 0⟩, r)
   else if k < 6 then (⟨'A', a, b, 0, 0⟩, r)
-  else if k < 9 then (⟨'F', m, a, 0, 0⟩, r)
+  -- every second Flate layer under one of the 32 legal zlib headers (chosen by the draws already made)
+  else if k < 9 then (⟨'F', m + (if a % 2 == 1 then 8 * (1 + (a / 2 + 5 * m) % 32) else 0), a, 0, 0⟩, r)
   else (⟨'U', 0, 0, 0, 0⟩, r)
 
 def randChain (r : Rng) (len : Nat) (allowU : Bool) : List Layer × Rng :=
@@ -962,7 +1017,9 @@ def gen (seed n : Nat) (tier : String) (emit0 : String → IO Unit) : IO Unit :=
         let (outer, r5) := randChain r4 (variant % 3) false
         let (inner, r6) := randChain r5 (variant % 2) false
         r := r6
-        let l : Layer := ⟨k, if k == 'F' then variant % 5 else a, if k == 'F' then variant else variant % 3, 0, 0⟩
+        -- Flate: every encoder, the odd variants under one of the 32 legal headers
+        let fm := variant % 5 + (if variant % 2 == 1 then 8 * (1 + (variant * 5 + op * 3) % 32) else 0)
+        let l : Layer := ⟨k, if k == 'F' then fm else a, if k == 'F' then variant else variant % 3, 0, 0⟩
         emit (caseOf "mal" { shape := 3 + variant % 3, chain := outer ++ [l] ++ inner, corrL := outer.length + 1,
                              corrOp := op, corrArg := arg, payload := p })
   -- 3b. `z` everywhere in an ASCII85 text: after k = 0..4 digits of the first / middle / last group and directly
@@ -1049,6 +1106,84 @@ def gen (seed n : Nat) (tier : String) (emit0 : String → IO Unit) : IO Unit :=
       r := r1
       emit (caseOf "rt" { shape := 3, chain := [⟨'F', 4, 7 * ds + 3, 0, 0⟩], eol := ds % 4,
                           payload := blk ++ blk ++ blk ++ blk.take (L / 2 + 1) })
+  -- 4d. the zlib header (RFC 1950 2.2, Spec/ZlibHdr.lean).  Every legal header - CINFO 0..7 (windows of 256 .. 32768
+  --     bytes) x FLEVEL 0..3 with its FCHECK, 32 in all - in front of every encoder (stored, literal block, two fixed-Huffman
+  --     factorisations, dynamic / mixed plans) over self-similar payloads of period 1 .. 5000 (the factoriser keeps to
+  --     distances inside the declared window), alone under each spelling of /Filter
+  let periods : List Nat := [1, 5, 48, 200, 300, 1000, 5000]
+  for h in List.range 32 do
+    for m in [0, 1, 2, 3, 4] do
+      let L := periods[(h + 3 * m) % periods.length]?.getD 5
+      let (blk, r1) := Rng.bytes L r
+      r := r1
+      let p := blk ++ blk ++ blk ++ blk.take (L / 2 + 1)
+      let fs := 7 * h + m
+      emit (caseOf "rt" { shape := 3 * ((h + m) % 3) + fs % 3, chain := [⟨'F', m + 8 * (h + 1), fs, 0, 0⟩], eol := fs % 4, payload := p })
+  --     ... in chains: below / above ASCIIHex and ASCII85, two Flate layers with two different headers, under a predictor
+  for h in List.range 32 do
+    for form in [0, 1, 2, 3] do
+      let fs := 11 * h + form
+      let (blk, r1) := Rng.bytes (3 + (h + form) % 60) r
+      r := r1
+      let p := blk ++ blk ++ blk ++ [UInt8.ofNat h]
+      let l : Layer := ⟨'F', fs % 5 + 8 * (h + 1), fs, 0, 0⟩
+      let h2 := (h * 5 + 3) % 32
+      let ch : List Layer := match form with
+        | 0 => [kinds[h % 2]!, l]
+        | 1 => [l, kinds[1 - h % 2]!]
+        | 2 => [l, ⟨'F', (fs + 2) % 5 + 8 * (h2 + 1), fs + 1, 0, 0⟩]
+        | _ => [⟨'P', fs % 5 + 8 * (h + 1), fs, [2, 10, 11, 12, 13, 14][h % 6]! + 16 * fs, 15 * (h % 2)⟩]
+      emit (caseOf "rt" { shape := 6 + fs % 3, chain := ch, eol := fs % 4, payload := p })
+  --     ... the same headers with the factoriser NOT kept inside the window (h = 33..64), periods just beyond the
+  --     window: where a distance exceeds it the stream is outside RFC 1950 (payload or TransformError)
+  for h in List.range 32 do
+    for m in [2, 3, 4] do
+      let w := 2 ^ (h / 4 + 8)
+      if (w < 8192 || thorough || m == 2 + h % 3) && (h / 4 < 7 || m == 2) then
+        -- the period: the window + 1 (the 32K window cannot be exceeded); a seed whose candidate distances hold it
+        let L := if h / 4 == 7 then 300 else w + 1
+        let fs := ((List.range 16).map (13 * h + m + ·)).find? (fun s => (lzCands s).contains L) |>.getD 0
+        let (blk, r1) := Rng.bytes L r
+        r := r1
+        let p := blk ++ blk ++ blk.take (L / 3 + 5)
+        emit (caseOf "rt" { shape := 3 + fs % 3, chain := [⟨'F', m + 8 * (h + 33), fs, 0, 0⟩], eol := fs % 4, payload := p })
+  --     ... header REPLACED (corruption 6, CMF = arg / 256, FLG = arg % 256): the 32 legal pairs on streams that the
+  --     smallest window covers (no change of outcome), and the illegal neighbours, each with the FCHECK that makes
+  --     the pair a multiple of 31 so that only the field in question is at fault: CINFO 8..15 x FLEVEL, every CM != 8
+  --     x two CINFO, FDICT set on each of the 32; then the wrong FCHECKs of every legal pair (quick: 3 of the 31 others)
+  let fix (cmf base : Nat) : Nat := cmf * 256 + base + (31 - (cmf * 256 + base) % 31) % 31
+  let mut swaps : List Nat := []
+  for c in List.range 8 do
+    for fl in List.range 4 do
+      let cmf := 16 * c + 8
+      let good := fix cmf (64 * fl)
+      swaps := swaps ++ [good, fix (16 * (c + 8) + 8) (64 * fl), fix cmf (64 * fl + 32), fix (16 * (c + 8) + 8) (64 * fl + 32)]
+      for k in List.range 31 do
+        if thorough || (k + c + fl) % 10 == 0 then
+          swaps := swaps ++ [good - good % 32 + (good % 32 + 1 + k) % 32]
+  for cm in List.range 16 do
+    if cm != 8 then
+      for c in [cm % 8, 7] do
+        swaps := swaps ++ [fix (16 * c + cm) (64 * (cm % 4)), fix (16 * (c + 8) + cm) (64 * (cm % 4))]
+  --     ... and (thorough: all 65536; quick: 160 drawn) arbitrary byte pairs
+  if thorough then
+    swaps := swaps ++ List.range 65536
+  else
+    for _ in List.range 160 do
+      let (v, r1) := r.nat 65536
+      r := r1
+      swaps := swaps ++ [v]
+  let mut si := 0
+  for arg in swaps do
+    si := si + 1
+    let (blk, r1) := Rng.bytes (2 + si % 9) r
+    r := r1
+    let p := blk ++ blk ++ blk
+    let l : Layer := ⟨'F', si % 5 + (if si % 3 == 0 then 8 * (1 + si % 32) else 0), si, 0, 0⟩
+    let ch : List Layer := match si % 7 with | 1 => [kinds[0]!, l] | 2 => [l, kinds[1]!] | _ => [l]
+    let rc : Recipe := { shape := 3 + si % 3, chain := ch, corrL := ch.length - (if si % 7 == 2 then 1 else 0), corrOp := 6, corrArg := arg, payload := p }
+    -- view twins for the first 300 (the legal pairs and their neighbours)
+    if si > 300 then emit0 (caseOf "mal" rc) else emit (caseOf "mal" rc)
   -- 5. random recipes
   for _ in List.range n do
     let (clen, r1) := r.nat 4
